@@ -3,8 +3,8 @@ package lang
 import (
 	"encoding/json"
 	"errors"
-	"regexp"
 	"fmt"
+	"regexp"
 	"sort"
 	"strconv"
 	"strings"
@@ -204,13 +204,13 @@ var c07Members = map[string]string{
 
 	"Account.Storage.borrow": "$.storage.borrow<&[Int]>(from: /storage/a)", "Account.Storage.check": "$.storage.check<[Int]>(from: /storage/a)",
 	"Account.Storage.copy": "$.storage.copy<[Int]>(from: /storage/a)", "Account.Storage.forEachAttachment": "",
-	"Account.Storage.forEachPublic":  "$.storage.forEachPublic(fun (p: PublicPath, t: Type): Bool { return true })",
-	"Account.Storage.forEachStored":  "$.storage.forEachStored(fun (p: StoragePath, t: Type): Bool { return true })",
-	"Account.Storage.getType":        "$.storage.getType()",
-	"Account.Storage.isInstance":     "$.storage.isInstance(Type<Account.Storage>())",
-	"Account.Storage.load":           "$.storage.load<Int>(from: /storage/n)",
-	"Account.Storage.save":           "$.storage.save(7, to: /storage/fresh)",
-	"Account.Storage.type":           "$.storage.type(at: /storage/a)",
+	"Account.Storage.forEachPublic": "$.storage.forEachPublic(fun (p: PublicPath, t: Type): Bool { return true })",
+	"Account.Storage.forEachStored": "$.storage.forEachStored(fun (p: StoragePath, t: Type): Bool { return true })",
+	"Account.Storage.getType":       "$.storage.getType()",
+	"Account.Storage.isInstance":    "$.storage.isInstance(Type<Account.Storage>())",
+	"Account.Storage.load":          "$.storage.load<Int>(from: /storage/n)",
+	"Account.Storage.save":          "$.storage.save(7, to: /storage/fresh)",
+	"Account.Storage.type":          "$.storage.type(at: /storage/a)",
 
 	"Account.Capabilities.borrow": "$.capabilities.borrow<&[Int]>(/public/a)", "Account.Capabilities.exists": "$.capabilities.exists(/public/a)",
 	"Account.Capabilities.forEachAttachment": "", "Account.Capabilities.get": "$.capabilities.get<&[Int]>(/public/a)",
@@ -836,7 +836,10 @@ func c07JudgeSingle(a *c07Alphabet, c c07Cand) (class, detail string) {
 // structural class whatever the context.
 func c07Sig(c c07Cand, cls string) string {
 	if strings.Contains(cls, "unexpected-event") && (c.Op == "emit" || strings.HasSuffix(c.Op2, "/emit")) {
-		return "emit-statement-accepted-in-view-context|" + cls
+		if strings.HasPrefix(cls, "tx-") {
+			return "emit-statement-accepted-in-view-context|" + cls
+		}
+		return "emit-statement-accepted-in-view-context|unexpected-event" // whichever engines got as far as the emit
 	}
 	return c.Ctx + "|" + c.PType + "/" + c.Path + "|" + c.Op + "|" + cls
 }
@@ -1002,7 +1005,7 @@ func replayC07(env *mc.Env, raw json.RawMessage) (bool, string) {
 
 func init() {
 	mc.Register(&mc.Check{
-		ID: "C07",
+		ID:   "C07",
 		Rule: "every compatible combination of view context (view fun, view method of struct/resource, view init, view closure, pre-/post-condition of a function or method, emit conditions) x access path to a pre-existing value (global, authorized reference parameter, copy parameter, self field, captured variable, local/inline reference, struct field, optional force/chain, nested element, dereferenced copy, storage borrow, capability borrow, cast from AnyStruct, result of a view function, getAuthAccount, account objects, capability controllers) x operation (every function member of [Int], [Int;3], {String:Int}, Account.*, capability controllers and Capability as enumerated from sema, plus assignment, index/member write, swap, impure/view calls, emit, nested impure functions, create/destroy); the checker decides acceptance; every accepted candidate is run on both engines with a full dump of globals, argument/self/captured values and account storage/capabilities/contracts/keys before and after, and (where expressible) as a transaction that must issue no SetValue and no event; thorough adds every ordered pair of operations in a view fun body; non-trivial = distinct accepted candidate that ran",
 		Assumptions: []string{
 			"the dump (log of every global, reference-reachable argument, storage path value, capability controller, contract name, key count) shows every value that existed before the call",
